@@ -101,6 +101,14 @@ def run(rep: Report) -> None:
     from .c05 import check_match_direction
     rep.rule("R05.9", "planner steps obtained with the sides exchanged are turned round before use (shared with C05; the rest of the planner is C04's)", floor=2)
     check_match_direction(rep, prog)
+    from .c05 import check_inline_paths
+    rep.rule("R05.10", "plan steps keep their own ratio, exponent and order when paths are inlined (shared with C05): a ratio moved "
+             "across a hop with an offset makes a + b depend on the prefix the operands are written with", floor=4)
+    check_inline_paths(rep, prog)
+    from .c05 import check_factor_sign
+    rep.rule("R05.11", "factors are applied with the sign of the dimension _splat files them under (shared with C05): an inverted ratio for dimensionless "
+             "factors makes 1 deg/s and its value in rad/s compare differently", floor=6)
+    check_factor_sign(rep, prog)
     value_preservation(rep, prog, resolver)
     prefix_arithmetic_layering(rep, prog, resolver)
     rep.assume("q.in_unit(U) returns a quantity of unit U with unchanged physical value (C04 axiom)")
